@@ -594,6 +594,22 @@ func (x *Exec) specCall(e *ast.CallExpr, sc *SpecScope, st *State) *Value {
 		p, ft := x.specFieldPtr(&Pointer{Base: IntLit(1)}, tn.Type(), se.Sel.Name)
 		k, ks := x.locKey(p, x.sortOf(ft), ft)
 		return &Value{Tm: st.hget(k, ks)}
+	case "now":
+		// current value of a (possibly reassigned) parameter or local
+		id, ok := e.Args[0].(*ast.Ident)
+		if !ok {
+			panic(engErr("now(x) expects an identifier"))
+		}
+		var best types.Object
+		for o := range st.env {
+			if o.Name() == id.Name && (best == nil || o.Pos() < best.Pos()) {
+				best = o
+			}
+		}
+		if best == nil {
+			panic(engErr("now(%s): no such variable", id.Name))
+		}
+		return x.readVar(best, st)
 	case "old":
 		if sc.old == nil {
 			panic(engErr("old() not available here"))
@@ -696,7 +712,12 @@ func (x *Exec) specCall(e *ast.CallExpr, sc *SpecScope, st *State) *Value {
 		if v.Tm == nil || v.Tm.S != SliceS {
 			panic(engErr("bytes() expects a slice"))
 		}
-		return &Value{Tm: App("bytesval", UnS("Bytes"), x.sliceContents(st, v.Tm, x.sortOf(types.Typ[types.Uint8]), types.Typ[types.Uint8]), SOff(v.Tm), SLen(v.Tm))}
+		bs := x.sortOf(types.Typ[types.Uint8])
+		fn := "bytesval"
+		if bs.K == KBV {
+			fn = "bytesval8"
+		}
+		return &Value{Tm: App(fn, UnS("Bytes"), x.sliceContents(st, v.Tm, bs, types.Typ[types.Uint8]), SOff(v.Tm), SLen(v.Tm))}
 	case "arr":
 		return &Value{Tm: SArr(arg(0).Tm)}
 	case "off":
